@@ -28,6 +28,8 @@ def shapes(tier):
         if tier == 'quick' and len(ins) + len(ps) > 3:
             continue
         out.append({'inputs': list(ins), 'params': list(ps), 'style': style})
+        if ins and (tier != 'quick' or len(ps) <= 1):
+            out.append({'inputs': list(ins), 'params': list(ps), 'style': style, 'grouped': True})  # upstream tasks live in a group
     return out
 
 
@@ -50,7 +52,7 @@ class CObj(ChainObject, ParameterObject):
         self.x = x
         self.seen = 'init_chain not called'
     def init_chain(self, chain):
-        self.seen = sorted(chain.tasks)
+        self.seen = [len(chain.tasks), 'tested' in chain.tasks]  # (names of mocked tasks are the caller's choice)
     def repr(self):
         return f'CObj({self.x!r})'
 '''
@@ -60,6 +62,7 @@ class CObj(ChainObject, ParameterObject):
 class Up{i}(Task):
     class Meta:
         name = 'up{i}'
+        {"task_group = 'grp'" if shape.get('grouped') else 'pass'}
         parameters = [Parameter('c{i}')]
     def run(self, c{i}) -> {ann}:
         RUNS.append('up{i}')
@@ -113,9 +116,9 @@ def assignments(shape, tier):
         opts = []
         for j, kind in enumerate(shape['params']):
             if kind == 'required':
-                opts.append([('given', [7, 'x'][j % 2])])
+                opts.append([('given', [7, 'x'][j % 2]), ('given', None)])
             elif kind == 'defaulted':
-                opts.append([('given', 'explicit'), ('omitted', None)])
+                opts.append([('given', 'explicit'), ('omitted', None), ('given', None)])
             elif kind == 'object':
                 opts.append([('obj', j)])
             else:
@@ -148,7 +151,7 @@ def check(shape, mocks, pvals, base):
         exp_args[f'p{j}'] = {'given': v, 'omitted': f'dflt{j}', 'obj': ['Obj', v], 'cobj': ['CObj', v, None]}[how]
     for i, m in enumerate(mocks):
         exp_args[f'up{i}'] = copy.deepcopy(m)
-    names = sorted(['tested'] + [f'up{i}' for i in range(len(mocks))])
+    names = [1 + len(mocks), True]
     for k, v in exp_args.items():
         if isinstance(v, list) and v and v[0] == 'CObj':
             v[2] = names
@@ -171,7 +174,7 @@ def check(shape, mocks, pvals, base):
             hb = Path(base) / f'{helper}_{keying}'
             mock_map = {}
             for i, (form, m) in enumerate(zip(shape['inputs'], mocks)):
-                key = ns[f'Up{i}'] if (form == 'class' and keying == 'as_declared') else f'up{i}'
+                key = ns[f'Up{i}'] if (form == 'class' and keying == 'as_declared') else ns[f'Up{i}'].slugname  # the task's name incl. its group
                 mock_map[key] = copy.deepcopy(m)
             try:
                 if helper == 'create_test_task':
@@ -203,8 +206,8 @@ def check(shape, mocks, pvals, base):
                         out.append(('mocked task does not return the supplied value', f'{mv!r} vs {m!r}'))
     # ---- missing input / missing required parameter are reported at construction
     if mocks:
-        partial = {f'up{i}': m for i, m in enumerate(mocks)}
-        partial.pop('up0')
+        partial = {ns[f'Up{i}'].slugname: m for i, m in enumerate(mocks)}
+        partial.pop(ns['Up0'].slugname)
         try:
             create_test_task(T, input_tasks=partial, parameters=params(), base_dir=Path(base) / 'missing_in')
             out.append(('missing input not reported by create_test_task', f'mocks {list(partial)}'))
@@ -215,7 +218,7 @@ def check(shape, mocks, pvals, base):
         p = params()
         p.pop(f'p{req[0]}')
         try:
-            TestChain([T], mock_tasks={f'up{i}': m for i, m in enumerate(mocks)}, parameters=p, base_dir=Path(base) / 'missing_p')
+            TestChain([T], mock_tasks={ns[f'Up{i}'].slugname: m for i, m in enumerate(mocks)}, parameters=p, base_dir=Path(base) / 'missing_p')
             out.append(('missing required parameter not reported by TestChain', f'without p{req[0]}'))
         except Exception:  # noqa
             pass
